@@ -232,8 +232,9 @@ def run(ctx: Ctx) -> None:
     finally:
         shutil.rmtree(td, ignore_errors=True)
     ctx.resolve_broken({"translate is_ignored_via_amend (iteration over the set settings.ignore)": "history:", "amend_order_irrelevant": "history:", "amend_translated_is_the_model": "history:",
-                        "process_state_inventory": "history:", "sort_perm_invariant": "file-order-matters", "partition_invariant": "grouping-matters",
-                        "key_order_documented": "not-sorted", "sorted_output": "not-sorted"}, b.first_error if b else "")
+                        "process_state_inventory": "history:", "sort_perm_invariant": ("file-order-matters", "history:"), "partition_invariant": ("grouping-matters", "history:"),
+                        "key_order_documented": ("not-sorted", "history:"), "sorted_output": ("not-sorted", "history:"), "key_total_on_distinct": ("not-sorted", "history:"),
+                        "report_example": ("not-sorted", "history:"), "translate sort_errors": ("not-sorted", "history:")}, b.first_error if b else "")
 
 
 def histories(ctx: Ctx, td: str, files: list[str]) -> None:
@@ -255,6 +256,30 @@ def histories(ctx: Ctx, td: str, files: list[str]) -> None:
     big_a.write_text(head + "".join(f"x{i} = [f(a, b) for a, b in ps]\n" for i in range(300)))
     big_b.write_text(head + "".join(f"y{i} = list(f(a, b) for a, b in ps)\n" for i in range(300)))
     scen["stale-node-ids"] = "import gc\n" + "".join(f"go([{str(big_a)!r}]); gc.collect(); go([{str(big_b)!r}]); gc.collect(); " for _ in range(4))
+    # the settings change between the runs of one process (an editor integration checking projects with different targets): the report of
+    # each run is what a fresh process gives for the same file and settings.  The file roots expressions at literals and goes through
+    # builtin methods that exist only from some version on, so that whatever a run remembers about builtins would show.
+    ver = Path(td) / "versions.py"
+    ver.write_text("names = ['a', 'b']\nflag = True\nx = str(', '.join(names).removesuffix(', '))\ny = str(f'{names}'.removeprefix('['))\nz = int((1).bit_count())\n"
+                   "w = bool(''.isascii())\nv = str('a,b'.split(',')[0])\nu = list([1, 2][::-1])\nt = dict({'k': 1} | {'j': 2})\ns = bin(7).count('1')\n"
+                   "r = str('x') if flag else str(b'x'.hex(':'))\n")
+    setting_runs = [("python_version=(3, 8)", ), ("", ), ("python_version=(3, 12)", ), ("python_version=(3, 8)", ), ("python_version=(3, 9)", ), ("", ), ("python_version=(3, 10)", ), ("python_version=(3, 7)", )]
+    def _go(kw):  # noqa: E306
+        return f"go([{str(ver)!r}]" + (", " + kw if kw else "") + ")"
+    fresh_settings = {}
+    for (kw,) in setting_runs:
+        if kw not in fresh_settings:
+            r, err = in_process(PRELUDE + _go(kw), td)
+            fresh_settings[kw] = r[0] if r else [f"<no result: {err[-200:]}>"]
+    res_s, err_s = in_process(PRELUDE + "; ".join(_go(kw) for (kw,) in setting_runs), td)
+    for idx, ((kw,), got_) in enumerate(zip(setting_runs, res_s + [None] * len(setting_runs))):
+        ctx.case(("history", "settings-change", idx), nontrivial=True)
+        ctx.count("history-settings-change")
+        if got_ != fresh_settings[kw]:
+            ctx.report("history:settings-change-between-runs", f"run #{idx + 1} of a process whose runs use different target versions ({kw or 'default target'}) differs from the same run in a fresh process: "
+                       f"only here {[x for x in (got_ or []) if x not in fresh_settings[kw]][:2]} / missing {[x for x in fresh_settings[kw] if x not in (got_ or [])][:2]}",
+                       {"file": ver.read_text(), "runs": [k_ or "default" for (k_,) in setting_runs], "run": idx + 1, "got": got_, "fresh": fresh_settings[kw], "stderr": err_s[-400:]})
+            break
     fresh = {}
     for f in [f0, f1, f2, f3, str(big_a), str(big_b)]:
         r, err = in_process(PRELUDE + f"go([{f!r}])", td)
